@@ -123,6 +123,18 @@ func gen(g *vh.Gen) {
 	// the cap shrinks between runs: the next delivery evicts several messages at once
 	emit(0, []string{a(0, 1), a(0, 2), a(0, 3), a(0, 4), "C.2", a(0, 5), "R"})
 	emit(3, []string{a(1, 1), a(1, 2), a(1, 3), "X", "C.1", a(1, 4), "C.0", a(1, 5)})
+	// the SERVER is stopped and started again on the same storage path (retention disabled / 24 h, with and without a cap)
+	g.Emit("srv", "0", pool, "0", "sa,sb,sa,sc,sa")
+	g.Emit("srv", "0", pool, "24h", "sa,sb,sb")
+	g.Emit("srv", "2", pool, "0", "sa,sa,sa,sb")
+	g.Emit("srv", "3", pool, "24h", "sc,sa,sc")
+	for i := 0; i < g.N(0, 12); i++ {
+		var ms []string
+		for j, n := 0, 1+g.Intn(6); j < n; j++ {
+			ms = append(ms, srvBoxes[g.Intn(3)])
+		}
+		g.Emit("srv", vh.I([]int{0, 0, 2}[g.Intn(3)]), pool, []string{"0", "24h", "1h"}[g.Intn(3)], strings.Join(ms, ","))
+	}
 	// after a restart the first accesses to a mailbox are k overlapping reads (then a mutation, then the next restart)
 	g.Emit("conc", "0", pool, "250", "8", vh.I(g.N(4, 12)))
 	g.Emit("conc", "0", pool, "250", "3", vh.I(g.N(3, 12)))
